@@ -302,6 +302,18 @@ def check_path(case):
         if bad is not None:
             bad.detail = "segment %d: %s (another path built with the same Matrix object was changed in place before)" % (i, bad.detail)
             return bad
+    # the carried transform applied once more, in place, with the object's own matrix as the operand
+    again = build()
+    again *= mA
+    again *= again.transform
+    again.reify()
+    AA = gen.mat_mul(A, A)
+    o.label("path:own-transform-again")
+    for i, (a, b) in enumerate(zip(orig, again)):
+        bad = compare_seg(o, a, b, AA, "path*=M; path*=path.transform; reify")
+        if bad is not None:
+            bad.detail = "segment %d: %s" % (i, bad.detail)
+            return bad
     # lazily transformed segments
     lazy = (p * mA).segments(transformed=True)
     for i, (a, b) in enumerate(zip(orig, lazy)):
